@@ -57,8 +57,8 @@ impl<'a> Tokenizer<'a> {
     fn special_op_token(&mut self, start: usize) -> Result<Token<'a>> {
         loop {
             match self.peek_one() {
-                Some((_, _ch)) => {
-                    if keyword::is_op(&(self.input[start..self.current() + 1].to_string())) {
+                Some((idx, ch)) => {
+                    if keyword::is_op(&(self.input[start..idx + ch.len_utf8()].to_string())) {
                         self.next_one();
                     } else {
                         break;
